@@ -16,7 +16,7 @@ CLASSES = [('plus', '+'), ('minus', '-'), ('inc', '++'), ('dec', '--'), ('dot', 
            ('lt', '<'), ('shl', '<<'), ('le', '<='), ('gt', '>'), ('shr', '>>'), ('ge', '>='), ('assign', '='), ('eq', '=='), ('not', '!'), ('ne', '!='),
            ('slash', '/'), ('star', '*'), ('percent', '%'), ('caret', '^'), ('hash', '#'), ('hashhash', '##'), ('arrow', '->'), ('colon', ':'), ('semi', ';'),
            ('ident', 'x'), ('identL', 'L'), ('identu8', 'u8'), ('identU', 'U'), ('int', '1'), ('float-dot', '1.'), ('dot-float', '.5'), ('exp', '1e'), ('hexexp', '0x1p'),
-           ('longnum', '12L'), ('hex-ending-e', '0xe'), ('hex-ending-E', '0x1E'), ('hex-float-p', '0x1.8p'), ('dec-ending-e-suffix', '2e1f'), ('ident-e', 'e'), ('ident-p', 'p1'), ('string', '"s"'), ('char', "'c'"), ('lparen', '('), ('rparen', ')'), ('comma', ','), ('minus-eq', '-='), ('shl-eq', '<<=')]
+           ('longnum', '12L'), ('hex-ending-e', '0xe'), ('hex-ending-E', '0x1E'), ('hex-float-p', '0x1.8p'), ('dec-ending-e-suffix', '2e1f'), ('ident-e', 'e'), ('ident-p', 'p1'), ('ident-utf8-tail', 'clé'), ('ident-utf8-head', 'ñu'), ('ident-cjk', '変数'), ('ident-greek', 'αβ'), ('ident-dollar', 'a$'), ('string', '"s"'), ('char', "'c'"), ('lparen', '('), ('rparen', ')'), ('comma', ','), ('minus-eq', '-='), ('shl-eq', '<<=')]
 
 
 def pair_case(a, b):
@@ -53,6 +53,12 @@ def run_pair(a):
         os.unlink(q)
     os.unlink(p)
     return idx, rg, rc, rx, r2
+
+
+def deucn(t):
+    """gcc -E spells extended identifier characters as universal character names, clang and chibicc as UTF-8: compare the characters."""
+    t = re.sub(r'\\U([0-9a-fA-F]{8})', lambda m: chr(int(m.group(1), 16)), t)
+    return re.sub(r'\\u([0-9a-fA-F]{4})', lambda m: chr(int(m.group(1), 16)), t)
 
 
 def unfuse(a, b):
@@ -134,7 +140,7 @@ def run(ctx):
         if rg[0] != 0 or rc[0] != 0:
             ctx.count('pairs_discarded_reference_rejects')
             continue
-        tg, tc = pptok.spellings(rg[1].decode('utf-8', 'replace')), pptok.spellings(rc[1].decode('utf-8', 'replace'))
+        tg, tc = pptok.spellings(deucn(rg[1].decode('utf-8', 'replace'))), pptok.spellings(deucn(rc[1].decode('utf-8', 'replace')))
         if tg != tc:
             tg = unfuse(tg, tc)
             if tg is None:
@@ -151,7 +157,7 @@ def run(ctx):
         if rx[0] != 0:
             ctx.violation(key + '|rejected', 'chibicc -E failed (%s): %s' % (rx[0], core.first_line(et)), files=files, script=script)
             continue
-        tx = pptok.spellings(rx[1].decode('utf-8', 'replace'))
+        tx = pptok.spellings(deucn(rx[1].decode('utf-8', 'replace')))
         if tx != tg:
             k = next((i for i in range(min(len(tx), len(tg))) if tx[i] != tg[i]), min(len(tx), len(tg)))
             ctx.violation(key, '-E text re-lexes to ...%s, intended (gcc = clang) ...%s' % (' '.join(tx[max(0, k - 3):k + 3]), ' '.join(tg[max(0, k - 3):k + 3])), files=files, script=script)
